@@ -1,4 +1,4 @@
-/- Driver ops for Game2048.  Ops: game2048.state, game2048.step, game2048.judge, game2048.row -/
+/- Driver ops for Game2048.  Ops: game2048.state, game2048.step, game2048.judge, game2048.row, game2048.instance -/
 import JumanjiModel.Bridge.Json
 import JumanjiModel.Env.Game2048.Model
 import JumanjiModel.Env.Game2048.Bounds
@@ -79,6 +79,21 @@ def opJudge : Op := fun j => do
   let ill : Json := if decide (legal s.board a) then .null else jBool (illegalOk s s' ts)
   pure (jObj [("illegal_ok", ill), ("conserved", jBool (conservedStep s.board a s'.board))])
 
+/-- {"cfg": {"n"}, "state": a reset state} → generator certificates (C10): the advertised invariant, and the
+    transliterated `reset` replayed on the draw read off the state (cell and exponent of its one tile) -/
+def opInstance : Op := fun j => do
+  let cfg ← field j "cfg"
+  let n ← fNat cfg "n"
+  let s ← getState n (← field j "state")
+  let d := drawOf s.board
+  pure (jObj [("instance_ok", jBool (decide (InstanceOK n s))),
+              ("one_tile", jBool (tileCount s.board == 1)),
+              ("tile_is_2_or_4", jBool (boardSum s.board == 2 || boardSum s.board == 4)),
+              ("mask_is_legality", jBool (s.actionMask == legalMask s.board)),
+              ("consistent", jBool (decide (Consistent n s))),
+              ("draw_valid", jBool (decide (validDraw (tab n (fun _ _ => 0)) d))),
+              ("reset_matches_model", jBool (decide ((reset n d).1 = s)))])
+
 /-- {"row": [exponents]} → L1 loops and L2 spec on one row of any length -/
 def opRow : Op := fun j => do
   let r ← fNats j "row"
@@ -96,5 +111,5 @@ def opBounds : Op := fun j => do
 
 def ops : List (String × Op) :=
   [("game2048.step", opStep), ("game2048.state", opState), ("game2048.judge", opJudge),
-   ("game2048.row", opRow), ("game2048.bounds", opBounds)]
+   ("game2048.row", opRow), ("game2048.bounds", opBounds), ("game2048.instance", opInstance)]
 end Jb.Game2048
